@@ -717,6 +717,14 @@ package netty
 //@   modifies all
 //@   preserves handlerContext.*, pipeline.*, ghost node, ghost pos, channel.ctx, channel.cancel, channel.transport, channel.executor, channel.pipeline, channel.writeQueue, channel.untilWrite, channel.writeBuffers, channel.recycleBuffers, channel.id, channel.closed
 
+// the public factory keeps the configured queue size and wait mode as given (C18: the bound that
+// produces ErrAsyncNoSpace is the configured one)
+//@ property C01 C02 C06 C18
+//@ func NewAsyncWriteChannel
+//@   ensures keeps_configuration: captured(result, "NewAsyncWriteChannel$1", "writeQueueSize") == writeQueueSize && captured(result, "NewAsyncWriteChannel$1", "untilWrite") == untilWrite
+//@ func NewAsyncWriteChannel$1
+//@   requires ctx != nil && writeQueueSize <= 1<<40
+//@   ensures built_as_configured: is(result, *channel) && implies(writeQueueSize > 0, as(result, *channel).writeQueue != nil && cap(as(result, *channel).writeQueue) == writeQueueSize) && implies(writeQueueSize <= 0, as(result, *channel).writeQueue == nil) && as(result, *channel).untilWrite == untilWrite
 //@ property C01 C02 C05 C06 C10 C13 C18
 //@ func newChannelWith
 //@   requires ctx != nil && writeQueueSize <= 1<<40
@@ -727,7 +735,7 @@ package netty
 //@   ensures async: implies(writeQueueSize > 0, as(result, *channel).writeQueue != nil && cap(as(result, *channel).writeQueue) == writeQueueSize && bufInv(as(result, *channel)) && len(as(result, *channel).writeBuffers) == 0 && len(as(result, *channel).recycleBuffers) == 0)
 //@   ensures sync: implies(writeQueueSize <= 0, as(result, *channel).writeQueue == nil)
 
-//@ property C05 C07 C13
+//@ property C04 C05 C07 C08 C13 C16
 //@ func (*channel).readLoop
 //@   requires chinv(c) && done != nil
 //@   modifies all
